@@ -192,3 +192,21 @@ reg("C19",
     level_text="rate_meaning, rate_default_unit, rate_bare_unit(+values), rate_zero_unlimited, rate_infinity_unlimited, rate_rejects_malformed(+_duration), headers_set_wellformed, headers_accumulate, connect_to_map, connect_to_rejects_wrong_arity, resolver_addrs_default_port are proved in Coq for all strings about byte-level Gallina models of the flag parsers; the models are compared with flag.Value.Set of the real types (through the verif driver of package main) on every run and each stored value is judged against the generator's intent by a checker defined in Coq.",
     technique="Coq proofs over byte-string parser models; differential correspondence through the package-main driver",
     timeout={"quick": 600, "thorough": 3000})
+
+reg("C06",
+    rule="one hit (or seq+1 sequential hits, the last one observed) of a real Attacker whose http.Client uses a scripted "
+         "RoundTripper: 6 methods x 3 URLs, 0..8 target headers over 11 keys incl. case variants of Host / X-Vegeta-Seq / "
+         "X-Vegeta-Attack, optional request body, attack name or none, max-body in {-1,0,|b|-1,|b|,|b|+1,3}, chunked option, "
+         "redirect policy in {-1,0,1,2,10} with 0..3 scripted 302 hops, status 100..599, response bodies of 0..5000 bytes "
+         "delivered in random chunk sizes, transport error, read fault after k bytes; all cases are non-trivial",
+    clauses={1: "result method/URL differ from the target's", 2: "request method/URL/body differ from the target's",
+             3: "a target header is missing or altered in the request (key case / values)", 4: "request carries a header that is neither the target's nor injected",
+             5: "sequence header does not match the result's sequence number", 6: "attack-name header wrong", 7: "Host header did not set the request host",
+             8: "bytes-in differs from the captured body length", 10: "status code", 11: "response headers", 12: "captured body is not the first max-body bytes",
+             13: "bytes-out differs from the request body length", 14: "error text emptiness does not match the status class",
+             15: "failed exchange without an error text", 16: "failed exchange with a success status", 17: "response body not read to its end or not closed exactly once"},
+    assumptions=["net/http (http.Client.Do, redirect following, NewRequest) is library code; the transport is a scripted oracle",
+                 "for a transport error only: non-empty error, no success status, method and URL copied (DESIGN 7.1)"],
+    level_text="hit_always_clauses, request_clauses, hit_completed_clauses, captured_is_prefix and hit_failed_clauses are proved in Coq for every target, configuration and exchange (unbounded) about a Gallina model of Attacker.hit/Target.Request over an oracle transport; the model and a clause-by-clause checker defined in Coq are run against real hits through a scripted http.RoundTripper on every run.",
+    technique="Coq case analysis/refinement to a clause-by-clause spec; differential correspondence through a scripted RoundTripper",
+    timeout={"quick": 600, "thorough": 3000})
